@@ -265,12 +265,28 @@ func (ss *serverSession) request() {
 		ss.sc.serverLog("closed connection: invalid command")
 		return
 	}
+	if _, unauth := ss.sc.dbms.(*DbmsUnauth); unauth && !unauthAllowed(icmd) {
+		// some commands do not go through ss.sc.dbms
+		// e.g. Token, Kill, Connections
+		panic(notauth)
+	}
 	cmd := cmds[icmd]
 	cmd(ss)
 	assert.That(ss.Remaining() == 0) // should consume entire message
 	if icmd != commands.EndSession {
 		ss.EndMsg()
 	}
+}
+
+// unauthAllowed returns whether a command is allowed
+// on a connection that has not authenticated (see DbmsUnauth).
+func unauthAllowed(cmd commands.Command) bool {
+	switch cmd {
+	case commands.Auth, commands.Nonce, commands.SessionId,
+		commands.LibGet, commands.Libraries, commands.EndSession:
+		return true
+	}
+	return false
 }
 
 func errToStr(e any) string {
